@@ -232,16 +232,30 @@ impl DatasetIndex {
         let ghost mid = *self;
         assert(forall|s: u32, p: u32, o: u32, g: GraphId| mid.has(s,p,o,g) == old(self).has(s,p,o,g));
         assert(forall|g: u32| mid.graph_set(g) ==> old(self).graph_set(g));
+        assert(qs.len() > 0 ==> mid.has(qs[0].subject, qs[0].predicate, qs[0].object, graph));
+        assert(qs.len() > 0 ==> mid.gspo@.contains_key(graph));
         for quad in it: quads
             invariant
                 self.wf(),
                 it.seq() == qs,
+                qs.len() > 0 ==> mid.gspo@.contains_key(graph),
+                forall|g: u32| mid.graph_set(g) ==> old(self).graph_set(g),
+                forall|s: u32, p: u32, o: u32, g: GraphId| mid.has(s,p,o,g) == old(self).has(s,p,o,g),
                 forall|i: int| 0 <= i < qs.len() ==> (#[trigger] qs[i]).graph == graph,
                 forall|s: u32, p: u32, o: u32, g: GraphId| g != graph ==> self.has(s,p,o,g) == mid.has(s,p,o,g),
                 forall|s: u32, p: u32, o: u32| #[trigger] self.has(s,p,o,graph) ==> mid.has(s,p,o,graph) && exists|i: int| it.index@ <= i < qs.len() && qs[i].subject == s && qs[i].predicate == p && qs[i].object == o,
-                forall|g: u32| self.graph_set(g) ==> mid.graph_set(g) || GraphId::Named(g) == graph,
+                forall|g: u32| self.graph_set(g) ==> mid.graph_set(g) || (GraphId::Named(g) == graph && qs.len() > 0),
         {
             self.delete_quad(&quad);
+        }
+        assert(forall|s: u32, p: u32, o: u32| !self.has(s,p,o,graph));
+        assert(forall|s: u32, p: u32, o: u32, g: GraphId| g != graph ==> self.has(s,p,o,g) == old(self).has(s,p,o,g));
+        assert forall|g: u32| self.graph_set(g) implies old(self).graph_set(g) by {
+            if !mid.graph_set(g) {
+                assert(GraphId::Named(g) == graph && qs.len() > 0);
+                assert(mid.gspo@.contains_key(GraphId::Named(g)));
+                assert(mid.graph_set(g));
+            }
         }
     }
 
